@@ -199,7 +199,7 @@ Inductive typed (W0 : sty) : genv -> kctx -> instr -> ty -> Prop :=
     typed W0 G K (IReduce it init f) (concat R T0)
 | T_TypeFilter G K x t T d :
     iter_gate W0 G (ITypeFilter x t) -> typed W0 G K x T -> wf_ty t = true ->
-    is_iterator T = true -> of_type t = Some d -> vgood W0 d ->
+    is_iterator T = true -> of_type t = Some d ->
     typed W0 G K (ITypeFilter x t) (it_of t)
 (* it \ p (partition): the checker's test [filter_ok], and the operand is an iterator *)
 | T_Partition G K l r Tl Tr El :
